@@ -943,6 +943,7 @@ def stage_resp(ctx, side):
     stats = dict(found_in_loop=0, fallback=0)
     margins = {1: [], 3: [], 5: []}
     dis = []
+    hyp_bad = []
     for l in (1, 3, 5):
         p = PRIMES[l]
         gens = ["gen.signlat %s %s" % (hx(rng.bits(60)), hx(FEXP[l])) for _ in range(per)]
@@ -999,12 +1000,21 @@ def stage_resp(ctx, side):
             stats["found_in_loop" if found else "fallback"] += 1
             hist(ctx, "resp_candidates_consumed", mw[6] if len(mw) > 6 else "?")
             cb = " ".join(parts[3].split())
+            hyp = mp[2] if len(mp) > 2 else "?"
+            hist(ctx, "resp_asserted_conditions(dg>0,division exact,2*norm even,det lll!=0)", hyp)
+            if hyp != "1111":
+                hyp_bad.append(dict(op=line[:200], flags=hyp))
             if cx != mx or (len(mp) > 1 and cb != mp[1]):
                 dis.append(dict(op=line[:200], impl_x=cx, model_x=mx, impl_bounds=cb, model_bounds=mp[1] if len(mp) > 1 else ""))
                 if okp:
                     ctx.violation("model:resp", "decision-logic model of sample_response disagrees with the C code "
                                   "(response still short and in the lattice)", dis[-1], found=False)
     ctx.obligation("correspondence sample_response decision logic vs C on replayed candidate draws", not dis, json.dumps(dis[:2])[:600])
+    ctx.obligation("hypotheses of sample_response_found_pos (the three C asserts + full rank) hold on every signing-shaped input",
+                   not hyp_bad, json.dumps(hyp_bad[:2])[:400])
+    if hyp_bad:
+        ctx.violation("resp:asserted-condition-fails", "a condition that sample_response only asserts (divisor positive / exact division / "
+                      "even 2*norm / full-rank LLL basis) fails on a signing-shaped lattice", hyp_bad[0], found=False)
     ctx.coverage["resp"] = stats
     ctx.coverage["resp_first_lll_vector_margin_bits(response_length - log2 norm)"] = {
         str(l): dict(min=round(min(v), 2), max=round(max(v), 2), n=len(v)) for l, v in margins.items() if v}
